@@ -123,7 +123,7 @@ def gen_history(rng, n_ops, rate, burst_eff, pool, gc_p, nonmono_p):
 
 
 def c15_limiter_gen(rng, tier):
-    n = budget(tier, 1500, 60000)
+    n = budget(tier, 5000, 100000)
     out = []
     for i in range(n):
         rate, burst, v4, v6 = rand_opts(rng)
@@ -132,10 +132,10 @@ def c15_limiter_gen(rng, tier):
         mode = rng.random()
         gc_p = 0.0 if mode < 0.35 else rng.choice([0.03, 0.1, 0.25])
         nonmono = 0.03 if rng.random() < 0.08 else 0.0
-        ops = gen_history(rng, rng.choice([8, 20, 40, 80]), rate, beff, pool, gc_p, nonmono)
+        ops = gen_history(rng, rng.choice([8, 20, 40, 80, 150]), rate, beff, pool, gc_p, nonmono)
         out.append("h%d rate=%d burst=%d v4=%d v6=%d clock=virt ops=%s" % (i, rate, burst, v4, v6, ",".join(ops)))
     # real collector (gc() reads the real clock): one g op, arrivals keep 2 s clear of its 60 s threshold
-    for i in range(budget(tier, 150, 3000)):
+    for i in range(budget(tier, 500, 8000)):
         rate, burst, v4, v6 = rand_opts(rng)
         reff, beff, _, _ = prop_defaults(dict(rate=rate, burst=burst, v4=v4, v6=v6))
         pool = addr_pool(rng)
@@ -262,7 +262,7 @@ def c15_limiter_classify(line, res):
 # ---- defaults / mask ----------------------------------------------------------------------------
 def c15_defaults_gen(rng, tier):
     out = ["consts consts=1"]
-    n = budget(tier, 1500, 40000)
+    n = budget(tier, 3000, 60000)
     k = 0
     for rate in (0, 1, 20):
         for burst in (0, 7):
@@ -320,6 +320,112 @@ def c15_defaults_classify(line, res):
     return " ".join(x for x in c if "-" in x) or "all-configured"
 
 
+# ---- admission at the listeners (e2e) --------------------------------------------------------------
+COST = dict(udp_query=1, tcp_query=2, http_query=2, quic_query=2, tcp_conn=3, quic_conn=15, upstream=3)
+CLIENTS = [a4(0x7F000101), a4(0x7F000102), a4(0x7F000201), a4(0x7F000301), a4(0x7F0003FE)]
+HTTP_CARRIER = a4(0x7F000909)
+HDR_ADDRS = [a4(0x0A010203), a4(0x0A0102FE), a4(0x0A010303), mapped(0x7F000101), mapped(0x0A010203),
+             a6(0x20010DB8000100000000000000000001), a6(0x20010DB80001FFFF0000000000000009),
+             a6(0x20010DB8000200000000000000000001), a4(0x7F000201)]
+
+
+def c15_admit_gen(rng, tier):
+    out = []
+    n = budget(tier, 120, 1500)
+    for i in range(n):
+        burst = rng.choice([3, 4, 5, 8, 14, 15, 16, 18, 20, 25, 29, 30, 40])
+        v4 = rng.choice([0, 0, 24, 32])
+        v6 = rng.choice([0, 0, 48, 64])
+        steps = []
+        http = rng.random() < 0.5
+        if http:
+            steps.append("hc:" + HTTP_CARRIER)
+        kinds = rng.choice([["uq"], ["uq", "tq"], ["uq", "tq", "qq"], ["qq"], ["qq", "uq"], ["tq"]])
+        clients = rng.sample(CLIENTS, rng.choice([1, 2, 3]))
+        for _ in range(rng.choice([3, 5, 8, 10])):
+            if http and rng.random() < 0.4:
+                steps.append("hq:" + rng.choice(HDR_ADDRS))
+            else:
+                steps.append("%s:%s" % (rng.choice(kinds), rng.choice(clients)))
+        out.append("e%d rate=1 burst=%d v4=%d v6=%d global=0 steps=%s" % (i, burst, v4, v6, ",".join(steps)))
+    return out
+
+
+def c15_admit_oracle(line, res):
+    """per-subnet accounting as the property states it (cost table of app/router/limiter.go, every charge goes to
+    the CLIENT's subnet), following the implementation's own outcomes; all events within one refill period"""
+    f = gens.fields(line)
+    r = gens.fields(res)
+    if "out" not in r:
+        return None
+    _, burst, v4, v6 = prop_defaults(f)
+    outs = r["out"].split(",")
+    steps = [x for x in f["steps"].split(",") if x]
+    if len(outs) != len(steps):
+        return None
+    tok = {}
+    conns = set()
+
+    def bucket(a):
+        k = prop_key(a, v4, v6)
+        tok.setdefault(k, burst)
+        return k
+
+    for st, o in zip(steps, outs):
+        kind, a = st.split(":")
+        k = bucket(a)
+        if o.endswith("+fwd"):
+            return "step %s: outcome %s but the query reached the upstream (a refused query must not be forwarded)" % (st, o)
+        if "-nofwd" in o:
+            return None
+        if kind == "hc":
+            if o == "CLOSED" and tok[k] >= COST["tcp_conn"]:
+                return "step %s: connection closed although subnet %s holds %d tokens" % (st, k, tok[k])
+            if o == "ACCEPT":
+                if tok[k] < COST["tcp_conn"]:
+                    return "step %s: connection admitted with %d tokens (cost %d)" % (st, tok[k], COST["tcp_conn"])
+                tok[k] -= COST["tcp_conn"]
+            continue
+        ccost = dict(tq=COST["tcp_conn"], qq=COST["quic_conn"]).get(kind)
+        qcost = dict(uq=COST["udp_query"], tq=COST["tcp_query"], qq=COST["quic_query"], hq=COST["http_query"])[kind]
+        refusal = dict(uq="REFUSED", tq="REFUSED", qq="SCLOSED", hq="503")[kind]
+        if ccost is not None and (kind, a) not in conns:
+            if o == "CLOSED":
+                if tok[k] >= ccost:
+                    return "step %s: connection closed although subnet %s holds %d tokens (cost %d): refused because of other subnets' traffic" % (
+                        st, k, tok[k], ccost)
+                continue
+            if o in ("ANS", refusal):
+                if tok[k] < ccost:
+                    return "step %s: connection admitted with %d tokens (cost %d)" % (st, tok[k], ccost)
+                tok[k] -= ccost
+                conns.add((kind, a))
+            else:
+                return None
+        if o == "ANS":
+            if tok[k] < qcost:
+                return "step %s: query admitted with %d tokens (cost %d)" % (st, tok[k], qcost)
+            tok[k] -= qcost
+            if tok[k] >= COST["upstream"]:
+                tok[k] -= COST["upstream"]
+        elif o == refusal:
+            if tok[k] >= qcost:
+                return "step %s: query refused although subnet %s holds %d tokens (cost %d)" % (st, k, tok[k], qcost)
+        elif o in ("REFUSED", "503", "SCLOSED", "CLOSED"):
+            return "step %s: refusal signalled as %s, the property says %s" % (st, o, refusal)
+        else:
+            return None
+    return None
+
+
+def c15_admit_classify(line, res):
+    f = gens.fields(line)
+    ks = sorted(set(x.split(":")[0] for x in f.get("steps", "").split(",") if x))
+    r = gens.fields(res).get("out", "")
+    tags = [t for t in ("REFUSED", "503", "CLOSED", "SCLOSED") if t in r.split(",")]
+    return "+".join(ks) + "=>" + ("/".join(tags) or "all-admitted")
+
+
 C15_TRUST = ["C15: x/time/rate modelled as an exact integer-arithmetic token bucket (tokens scaled by 1e9); decisions within "
              "1e-6 token of the threshold are not compared (float64)",
              "C15: the VerifGcAt hook repeats the 8-line loop of gc() with a caller-supplied clock; the real gc() is "
@@ -331,6 +437,8 @@ PROPS["C15"] = dict(
              nontrivial=lambda l, r: True),
         dict(name="limiter", gen=c15_limiter_gen, oracle=c15_limiter_oracle, compare=c15_limiter_compare,
              classify=c15_limiter_classify, shards=8, timeout=900, nontrivial=lambda l, r: "dec=" in r),
+        dict(name="admit", gen=c15_admit_gen, oracle=c15_admit_oracle, classify=c15_admit_classify, timeout=600,
+             nontrivial=lambda l, r: r.startswith("out=")),
     ],
     rule="limiter: virtual-time arrival histories (8..80 ops) on the real ClientLimiter: addresses from one /24, adjacent /24s, "
          "v4-mapped twins, one /48, adjacent /48s, boundary addresses; rates 1..100000, bursts incl. omitted, 60*rate, 60*rate+1; "
